@@ -7,7 +7,13 @@
 #include "json_object_private.h"
 #include "printbuf.h"
 #include "json_patch.h"
+#include "linkhash.h"
 const char *DOMAIN = "heap";
+
+/* storage of the keys handed over with JSON_C_OBJECT_ADD_CONSTANT_KEY: owned by the driver,
+ * outside the counted allocator, released when the next case starts */
+static char *ckey[4096];
+static int nckey;
 
 #define MAXID 20000
 static struct json_object *node[MAXID];
@@ -105,15 +111,17 @@ static void dump(struct json_object *o, int depth)
 		for (i = 0; i < n; i++) { if (i) putchar(','); dump(json_object_array_get_idx(o, i), depth + 1); }
 		putchar(']');
 	} else if (k == 'o') {
-		struct json_object_iter it;
+		struct lh_entry *e;
 		int first = 1;
 		putchar('{');
-		json_object_object_foreachC(o, it) {
+		lh_foreach(json_object_get_object(o), e) {
+			const char *key = (const char *)lh_entry_k(e);
 			if (!first) putchar(',');
 			first = 0;
-			puthex((const unsigned char *)it.key, strlen(it.key));
+			if (lh_entry_k_is_constant(e)) putchar('*');
+			puthex((const unsigned char *)key, strlen(key));
 			putchar('=');
-			dump(it.val, depth + 1);
+			dump((struct json_object *)lh_entry_v(e), depth + 1);
 		}
 		putchar('}');
 	}
@@ -163,6 +171,7 @@ void run_case(char *rest)
 	long live0 = xa_live;
 	memset(node, 0, sizeof(node)); memset(dead, 0, sizeof(dead)); memset(hascb, 0, sizeof(hascb));
 	cb_alive = 0;
+	while (nckey > 0) (free)(ckey[--nckey]);
 	xa_reset();
 	for (tok = strtok_r(rest, ";", &save); tok; tok = strtok_r(NULL, ";", &save)) {
 		char *a[5] = {0, 0, 0, 0, 0};
@@ -219,6 +228,16 @@ void run_case(char *rest)
 			k = cstr_of_hex(a[2]);
 			ret = json_object_object_add(p, k, v);
 			(free)(k);
+		} else if (!strcmp(a[0], "addx") && na == 5) {
+			struct json_object *p = H(a[1], &bad), *v = H(a[3], &bad);
+			long f = strtol(a[4], NULL, 10);
+			unsigned opts = (f & 1 ? JSON_C_OBJECT_ADD_KEY_IS_NEW : 0) | (f & 2 ? JSON_C_OBJECT_ADD_CONSTANT_KEY : 0);
+			char *k;
+			if (bad) { printf("DEADHANDLE"); return; }
+			k = cstr_of_hex(a[2]);
+			ret = json_object_object_add_ex(p, k, v, opts);
+			if ((f & 2) && nckey < 4096) ckey[nckey++] = k;   /* the table may keep this pointer */
+			else (free)(k);
 		} else if (!strcmp(a[0], "del") && na == 3) {
 			struct json_object *p = H(a[1], &bad);
 			char *k;
